@@ -394,7 +394,7 @@ pub fn run(ctx: &Ctx) -> PropResult {
         let n: i64 = if idx == 0 { 9_000 } else { 17_000 };
         let transitions: Vec<i64> = (0..n).map(|k| -2_000_000_000 + k * (3_900_000_000 / n)).collect();
         let type_idx: Vec<u8> = (0..n).map(|k| if k == n - 1 { 0 } else { (k % 2) as u8 }).collect();
-        let s = crate::model::tzif_gen::Synth { version: 2, transitions, type_idx, types: vec![(3_600, false), (7_200, true)], footer: "XXX-1".to_string() };
+        let s = crate::model::tzif_gen::Synth { version: 2, transitions, type_idx, types: vec![(3_600, false), (7_200, true)], footer: "XXX-1".to_string(), desigs: None };
         let bytes = s.bytes();
         rec.bin(if bytes.len() > 131_072 { "file/larger-than-128KiB" } else { "file/larger-than-64KiB" });
         let path = sd.join(format!("large_{}_{}.tzif", std::process::id(), idx));
@@ -413,7 +413,7 @@ pub fn run(ctx: &Ctx) -> PropResult {
             s = gen_synth(rng);
         }
         zones.push((format!("synthetic v{} ({} transitions)", s.version, s.transitions.len()), s.bytes()));
-        let v1 = crate::model::tzif_gen::Synth { version: 1, transitions: s.transitions.clone(), type_idx: s.type_idx.clone(), types: s.types.clone(), footer: String::new() };
+        let v1 = crate::model::tzif_gen::Synth { version: 1, transitions: s.transitions.clone(), type_idx: s.type_idx.clone(), types: s.types.clone(), footer: String::new(), desigs: s.desigs.clone() };
         zones.push((format!("the same table as a v1 file ({} transitions)", v1.transitions.len()), v1.bytes()));
         // ... and one or two unrelated zones
         for _ in 0..1 + rng.below(2) {
@@ -437,6 +437,7 @@ pub fn run(ctx: &Ctx) -> PropResult {
         "files: the vendored IANA corpus ({} fat + slim files, de-duplicated; a seed-dependent third in quick) and the machine's /usr/share/zoneinfo when present (right/ and posix/ excluded), plus synthetic v1/v2/v3 files (0–60 transitions, 1–8 types, footers fixed / M / J / n rules, either hemisphere, negative DST, /time incl. the v3 extended range, footer consistent with the last transition, switch-overs > 8 days apart and from 1 January). timestamps per file: every transition −1/0/+1 s, the footer's switch instants ±1 s and year starts for 16 years in 1900–2499 incl. leap years and Feb 28–Mar 1, random in 1900–2500. Oracle: tzif_ref (RFC 8536 + POSIX TZ evaluator, cross-checked against CPython zoneinfo on this run's own lookups by tools/tz_crosscheck.py) — offset of the latest transition ≤ t, footer rule from the last transition on. A tenth of the corpus and a sample of synthetic files also go end-to-end through Offset::Local.resolve() with /etc/localtime and the clock redirected by the hooks. Interleaved: 2–4 zones (one synthetic table as a v1 file and as a v2/v3 file with footer, plus unrelated zones) parsed side by side, their lookups shuffled into one sequence on one thread — the answer for (zone, timestamp) may not depend on what was asked before. Not claimed: timestamps before the first transition, empty footers, leap-second files, version 4. Non-trivial = every judged file; distinct by hash of the bytes. (Interleaved workload described above.) 32-bit time_t limits (±2^31, 2^32) ±1 s/±1 day are probed in every file; v3 rule times incl. negative sub-hour ones (-0:30, -0:00:59); two well-formed files of 9 000 and 17 000 transitions (> 64 KiB, > 128 KiB) through the byte entry point and, installed as /etc/localtime, through Offset::Local.",
         files.iter().filter(|(n, _)| !n.starts_with("system/")).count()
     );
+    meta.rule.push_str(" Synthetic files: designations as in the wild and some that look like the file's own syntax (TZif, TZif2, digits and signs), footer names of 3 to 16 characters incl. quoted names with digits and signs (<+103126>, <UTC+5>), tables passing through the instant whose 32-bit spelling is the magic (2014-11-05T18:16:06Z).");
     meta.required_bins = vec![
         "file/v1", "file/v2", "file/v3", "footer/fixed", "footer/M-rules", "footer/J-rules", "footer/n-rules", "footer/negative-dst", "footer/southern-hemisphere", "table/empty", "table/non-empty",
         "lookup/at-a-transition", "lookup/between-transitions", "lookup/at-last-transition", "lookup/after-last-rule-dst", "lookup/after-last-rule-std", "lookup/no-table-footer", "end-to-end/Offset::Local", "interleaved/judged", "file/larger-than-64KiB", "file/larger-than-128KiB",
